@@ -309,8 +309,13 @@ func RunCheck(prop, tier string) int {
 	}
 	nviol := 0
 	seen := map[string]bool{}
-	os.MkdirAll(filepath.Join(dir, "replays"), 0o755)
-	if old, _ := filepath.Glob(filepath.Join(dir, "replays", prop+"-*.json")); len(old) > 0 {
+	outDir := dir
+	if o := os.Getenv("VERIF_OUT"); o != "" {
+		// self-tests against modified trees write their evidence and replays elsewhere
+		outDir = o
+	}
+	os.MkdirAll(filepath.Join(outDir, "replays"), 0o755)
+	if old, _ := filepath.Glob(filepath.Join(outDir, "replays", prop+"-*.json")); len(old) > 0 {
 		for _, f := range old {
 			os.Remove(f)
 		}
@@ -326,7 +331,7 @@ func RunCheck(prop, tier string) int {
 		seen[k] = true
 		nviol++
 		h := sha1.Sum([]byte(k))
-		path := filepath.Join(dir, "replays", fmt.Sprintf("%s-%x.json", prop, h[:5]))
+		path := filepath.Join(outDir, "replays", fmt.Sprintf("%s-%x.json", prop, h[:5]))
 		b, _ := json.MarshalIndent(v, "", " ")
 		os.WriteFile(path, append(b, '\n'), 0o644)
 		fmt.Printf("VIOLATION property=%s replay=%s\n", prop, path)
@@ -348,7 +353,7 @@ func RunCheck(prop, tier string) int {
 		fmt.Fprintln(os.Stderr, "HARNESS-ERROR:", e)
 	}
 	wall := time.Since(t0).Seconds()
-	evPath := filepath.Join(dir, "evidence", prop+".json")
+	evPath := filepath.Join(outDir, "evidence", prop+".json")
 	os.MkdirAll(filepath.Dir(evPath), 0o755)
 	if err := WriteEvidence(evPath, ck, tier, seed, total, unitStats, wall, nviol); err != nil {
 		fmt.Fprintln(os.Stderr, "evidence:", err)
